@@ -15,7 +15,8 @@ META = {
     'technique': 'deviation-bounded exhaustive fault injection at the system-call boundary (ptrace), bound 1 complete / bound 2 on rich configs, plus constructed sink states',
     'text': 'Every I/O system call issued between wrapper entry and the real exec (per output type, per format class) is failed with every errno of its class menu, shortened, or answered with EOF, '
             'one deviation at a time (all single faults; all pairs on the richest configurations in thorough). After each run: the recorder was reached exactly once with the scripted result, '
-            'no signal-delivery stop occurred, no call blocked, the process exited normally, no sanitizer report.',
+            'no signal-delivery stop occurred, no call blocked, the process exited normally, no sanitizer report.'
+            " Sink states include the caller's own stdout/stderr (reader gone, full, nearly full, stopped terminal), a log path that is a FIFO nobody reads, a log file flock()ed or leased by another process, file-size limits, controlling-terminal foreground/background, and blocked-and-pending caller signals.",
     'note': 'mmap/brk/futex (allocation, outside the domain) are never faulted. Faults are injected at the kernel boundary, so libc retry loops are exercised as in production. '
             'A broken stdout/stderr pipe is not among the sink states the property lists and is not constructed.',
 }
